@@ -36,6 +36,9 @@ static LOGGER: SinkLogger = SinkLogger;
 const LOG_PASS: [&str; 18] = ["C01", "C10", "C13", "C14", "C02", "C03", "C04", "C05", "C06", "C07", "C08", "C09", "C11", "C15", "C16", "C17", "C18", "C19"];
 /// checks whose ceremonies are run once more with a user who takes an hour to answer every prompt
 const SLOW_PASS: [&str; 8] = ["C02", "C03", "C04", "C07", "C08", "C09", "C11", "C17"];
+/// checks that drive the WebAuthn client: repeated with the request members nothing speaks of
+/// (timeout, hints) set - see drivers::set_ambient_members
+const MEMBERS_PASS: [&str; 7] = ["C01", "C02", "C03", "C04", "C07", "C09", "C11"];
 /// checks whose subject can be used by several OS threads at once
 const THREAD_PASS: [&str; 5] = ["C01", "C02", "C03", "C10", "C19"];
 /// build variant of this binary: "" = default features, optimised, debug assertions and overflow
@@ -170,7 +173,9 @@ fn main() {
             machinery(&e);
         }
     }
-    if LOG_PASS.contains(&id.as_str()) {
+    // (C12's enumeration is the most expensive of the codecs: its log pass runs in the thorough tier, default build, only)
+    // the passes belong to the default build; the build variants run the base enumeration
+    if variant().is_empty() && (LOG_PASS.contains(&id.as_str()) || (id == "C12" && ctx.tier == Tier::Thorough)) {
         // the log pass: the same exploration with a logger installed at Trace.  Findings already
         // seen without the logger are the same defects; new ones carry the prefix log=trace/.
         set_trace(true);
@@ -226,6 +231,37 @@ fn main() {
             Ok(Err(e)) => machinery(&format!("slow-user pass: {e}")),
             Err(p) => machinery(&format!("harness panic in the slow-user pass: {p}")),
         }
+    }
+    if MEMBERS_PASS.contains(&id.as_str()) && variant().is_empty() {
+        // the members pass: timeout and hints are request members no property speaks of; a ceremony
+        // with them set (timeout 0 / 2^32-1 / 1 ms, three hint lists) is judged by the same oracle.
+        let ks: &[u8] = if ctx.tier == Tier::Thorough { &[1, 2, 3] } else { &[1] };
+        let mut passes = vec![];
+        for &k in ks {
+            crate::drivers::set_ambient_members(k);
+            let again = crate::core::par::catch(|| (prop.run)(&pass_ctx));
+            crate::drivers::set_ambient_members(0);
+            match again {
+                Ok(Ok(r2)) => {
+                    let mut fresh = 0u64;
+                    for (key0, (mut f, n)) in r2.findings {
+                        if run.findings.contains_key(&key0) {
+                            continue;
+                        }
+                        let key = format!("members={k}/{key0}");
+                        f.key = key.clone();
+                        f.detail = format!("with the request members timeout = {:?} and hints = {:?}: {}", crate::drivers::ambient_timeout_of(k), crate::drivers::ambient_hints_of(k), f.detail);
+                        f.case = serde_json::json!({"members": k, "case": f.case});
+                        run.findings.insert(key, (f, n));
+                        fresh += 1;
+                    }
+                    passes.push(serde_json::json!({"members": k, "evaluations": r2.coverage.get("evaluations"), "findings_not_seen_without_them": fresh}));
+                }
+                Ok(Err(e)) => machinery(&format!("members pass {k}: {e}")),
+                Err(p) => machinery(&format!("harness panic in the members pass {k}: {p}")),
+            }
+        }
+        run.coverage.insert("members_pass".into(), serde_json::json!(passes));
     }
     if variant().is_empty() {
         // the env pass: the process environment is an input too.  For every environment-variable
@@ -302,6 +338,36 @@ fn main() {
                 Err(p) => machinery(&format!("replay of key={key} panicked in the harness: {p}")),
             }
         }
+        // A finding seen several times during the sweep that five re-executions of its case do not
+        // show may depend on values the library draws at random (a key whose coordinate starts with
+        // a zero byte: 1 registration in 128).  Such a case is re-executed until it shows again, within
+        // a budget; a violation observed on re-execution is real, and the replay file says how often
+        // to repeat.  Without a reproduction it stays unconfirmed.
+        let mut repeat_hint: Option<u64> = None;
+        if !confirmed && *n >= 3 {
+            let t0 = Instant::now();
+            let mut k = 5u64;
+            while k < 4000 && t0.elapsed().as_secs() < 20 {
+                k += 1;
+                if let Ok(Ok(fs)) = crate::core::par::catch(|| replay_case(&prop, &ctx, &f.case)) {
+                    if fs.iter().any(|g| g.key == *key) {
+                        confirmed = true;
+                        repeat_hint = Some(k * 8);
+                        break;
+                    }
+                }
+            }
+        }
+        let owned;
+        let f = if let Some(r) = repeat_hint {
+            let mut g = f.clone();
+            g.detail = format!("{} [outcome depends on values the library draws at random: seen {n} times in the sweep, reproduced by re-executing the case {} times]", g.detail, r / 8);
+            g.case = serde_json::json!({"repeat": r, "case": g.case});
+            owned = g;
+            &owned
+        } else {
+            f
+        };
         if !confirmed {
             // seen during the sweep, not reproducible from its own case: not a verdict.  If nothing
             // else is confirmed this ends as a machinery error (below); if other findings of this
@@ -354,6 +420,38 @@ fn replay_case(prop: &props::Prop, ctx: &Ctx, case: &serde_json::Value) -> Resul
                 .map(|mut f| {
                     f.key = format!("slow-user/{}", f.key);
                     f.case = serde_json::json!({"slow_user": secs, "case": f.case});
+                    f
+                })
+                .collect()
+        });
+    }
+    if let Some(n) = case.get("repeat").and_then(|e| e.as_u64()) {
+        // a case whose outcome depends on values the library draws at random: re-executed until it shows
+        let mut last = Ok(vec![]);
+        for _ in 0..n.max(1) {
+            last = replay_case(prop, ctx, &case["case"]);
+            if matches!(&last, Ok(fs) if !fs.is_empty()) || last.is_err() {
+                break;
+            }
+        }
+        return last.map(|fs| {
+            fs.into_iter()
+                .map(|mut f| {
+                    f.case = serde_json::json!({"repeat": n, "case": f.case});
+                    f
+                })
+                .collect()
+        });
+    }
+    if let Some(k) = case.get("members").and_then(|e| e.as_u64()) {
+        crate::drivers::set_ambient_members(k as u8);
+        let r = replay_case(prop, ctx, &case["case"]);
+        crate::drivers::set_ambient_members(0);
+        return r.map(|fs| {
+            fs.into_iter()
+                .map(|mut f| {
+                    f.key = format!("members={k}/{}", f.key);
+                    f.case = serde_json::json!({"members": k, "case": f.case});
                     f
                 })
                 .collect()
